@@ -395,4 +395,53 @@ def parseText (T : Table) (S : Syms) (generic : List String) (exc : List (String
   | .ok cmds => assemble T S exc cmds
   | .error e => .error e
 
+/-! ### Decidable side conditions of the round-trip theorems (generated obligations) -/
+
+def isImm : FieldKind → Bool
+  | .imm8 => true
+  | .int32 => true
+  | _ => false
+
+/-- every immediate slot (from index `j` on) is exempt from constant replacement -/
+def exemptFrom (exc : List (String × Nat)) (name : String) : Nat → List FieldKind → Bool
+  | _, [] => true
+  | j, k :: ks => (!isImm k || exc.contains (name, j)) && exemptFrom exc name (j + 1) ks
+
+/-- the operand has the constructor its slot expects (any integer values) -/
+def kindOk : FieldKind → Operand → Bool
+  | .reg, .reg _ => true
+  | .imm8, .imm _ => true
+  | .int32, .imm _ => true
+  | .addr, .addr _ => true
+  | .entry, .entry _ _ => true
+  | .slice, .slice _ _ _ => true
+  | _, _ => false
+
+def kindsOk : List FieldKind → List Operand → Bool
+  | [], [] => true
+  | k :: ks, o :: os => kindOk k o && kindsOk ks os
+  | _, _ => false
+
+def mnCharOk (c : Char) : Bool := (decide ('a' ≤ c) && decide (c ≤ 'z')) || isDigit c || c = '_'
+
+/-- what the text round trip needs from one row of a flavour table: its mnemonic leads
+back to it through the flavour's name map, the class is found by name, every immediate
+slot is exempt from constant replacement, the mnemonic is a `GenericInstr` name made of
+lower-case letters, digits and underscores -/
+def rowTextOk (T : Table) (exc : List (String × Nat)) (generic : List String) (row : Row) : Bool :=
+  nameMap T row.mn == some row && rowOf T row.cls == some row
+  && exemptFrom exc row.mn 0 row.shape && generic.contains row.mn
+  && !row.mn.toList.isEmpty && row.mn.toList.all mnCharOk
+
+/-- the printed line of an instruction of table `T` (`str(instr)`) -/
+def showLine (T : Table) (S : Syms) (i : Instr) : List Char :=
+  match rowOf T i.cls with
+  | some row => showInstr S row.mn i.ops
+  | none => []
+
+def toksOf (T : Table) (i : Instr) : PCmd :=
+  match rowOf T i.cls with
+  | some row => printToks row.mn i.ops
+  | none => ⟨"", []⟩
+
 end NQ.Text
